@@ -83,6 +83,7 @@ func (mon) Plan(prop, tier string, seed int64) []drv.Shard {
 	if tier != "thorough" {
 		add("lattice", latticeParts, 0, 600, false)
 		add("rand", 8, 48000, 900, false)
+		add("wide", 2, 60, 900, false) // structs of 50..200 fields (a bitmap, table or counter sized for the usual few shows only there)
 		return out
 	}
 	// Thorough. Many small processes: types made by reflect.StructOf are never freed. The heavy
